@@ -30,7 +30,7 @@ func (x *Run) mayPanic(fr *Frame, st *State, okCond string, kind string, site ss
 		st.assume(okCond)
 		return
 	}
-	if fr.inPure() {
+	if fr.inPure() || fr.inSpec() {
 		st.assumeK(okCond, 'c')
 		return
 	}
@@ -627,6 +627,11 @@ func (x *Run) loops(fn *ssa.Function) *loopInfo {
 
 func (x *Run) enterLoopHeader(fr *Frame, from, to *ssa.BasicBlock, st *State, lp *loop) []Outcome {
 	ann := x.spec.loopAnn(fr.fn, lp.ordinal)
+	if x.curCon != nil && x.curCon.Unroll != nil {
+		if k, ok := x.curCon.Unroll[fmt.Sprintf("%s#%d", fr.fn.String(), lp.ordinal)]; ok {
+			ann = &LoopAnn{Unroll: k}
+		}
+	}
 	if ann != nil && ann.Unroll > 0 {
 		fr.unroll[to]++
 		if fr.unroll[to] > ann.Unroll+1 {
